@@ -223,7 +223,7 @@ Proof.
           fold N. destruct (construct_loop cfg SReextElem b 0 0 (repeat (SVal v) N) s1) as [[] s2|s2|e]; try contradiction.
           * destruct Tr as [L Sh2]. rewrite repeat_length in Sh2. apply Hafter; auto.
           * destruct Tr as [_ Th]. right. right. left. exact Th.
-        + destruct (c_trivial cfg) eqn:Ht.
+        + destruct (c_tdc cfg) eqn:Ht.
           * cbn. apply Hafter; [apply st_le_refl|]. destruct Sh as (blk & Hb & Hl & HN & _). exists blk. repeat split; auto.
             apply trivial_cells_ok; auto.
           * unfold value_construct_n. fold N.
@@ -365,7 +365,7 @@ Proof.
       - rewrite nel_with_bx. exact Hn.
       - rewrite nel_with_bx. congruence.
       - cbn. rewrite O, Ho. apply alloc_eq_refl. }
-    destruct (c_trivial cfg) eqn:Ht.
+    destruct (c_tdc cfg) eqn:Ht.
     + cbn. apply (Hfin _ (PBlk b)); auto. apply Hown; [apply st_le_refl|].
       exists blk. split; auto. apply trivial_cells_ok; auto.
     + unfold value_construct_n. fold N. rewrite default_construct_set_slot.
